@@ -9,10 +9,17 @@ import drv_session_common as common
 
 RULE = ("(a) histories on real OIDC and OAuth2 providers compared with the Gallina session model (authorize with arbitrary "
         "requested scope lists incl. unknown and not-allowed values, per-client allowed_scopes absent/subset, code exchange, refresh "
-        "with narrowed / equal / widened scope parameters, chained refreshes), oracle after every operation; (b) oracle-only "
+        "with narrowed / equal / widened scope parameters, chained refreshes), oracle after every operation; further "
+        "authorization requests within one browser session (the request carries the provider's session cookie of an earlier "
+        "authorization: identical / narrower / wider / disjoint / reordered scope, same or other registered redirect_uri, client, "
+        "user, state+nonce; earlier code pending or redeemed), every token held against the request of the authorization IT was "
+        "minted from; (b) oracle-only "
         "histories with JWT access tokens (scope claim inside the JWT), client_credentials, and token exchange (same and other "
         "client, narrowed/widened scope, access and refresh subject tokens). A history is non-trivial when tokens were minted.")
-ASSUMPTIONS = ["token exchange, client_credentials: decided by the oracle on the real endpoints only (not in the Gallina model)",
+ASSUMPTIONS = ["a provider whose usage rules are configured per client only sees no cookie-carrying authorization requests in the "
+               "model-compared histories (the grant it makes for such a request gets no usage rules at all; the model's lifetimes are per provider); "
+               "the oracle-only JWT histories do send them there",
+               "token exchange, client_credentials: decided by the oracle on the real endpoints only (not in the Gallina model)",
                "the password grant needs a password-checking authentication method that the harness provider does not configure: not exercised",
                "client authentication succeeds for the authenticating client (C01)"]
 
@@ -27,17 +34,39 @@ class ScopeOracle:
     def __init__(self, ctx):
         self.ctx = ctx
         self.hist = []
-        self.requested = {}      # grant index -> requested scopes (from the authz op)
+        self.requested = {}      # grant index -> requested scopes (from the authorization op that created the grant)
+        self._root = {}
+        self.code_auth = {}      # code index -> (client, requested scopes) of the authorization op that produced THAT code
         self.parsed = []
+
+    def root_code(self, rs, t):
+        """the code a token was (transitively) minted from, by the based_on values the tokens carry"""
+        key = id(t)
+        if key in self._root:
+            return self._root[key]
+        self._root[key] = r = self._root_code(rs, t)
+        return r
+
+    def _root_code(self, rs, t):
+        seen = 0
+        while t.token_class != "authorization_code" and t.based_on in rs.tokens and seen < 1000:
+            t = rs.tokobj[rs.tokens.index(t.based_on)]
+            seen += 1
+        if t.token_class == "authorization_code":
+            return next((i for i, o in enumerate(rs.tokobj) if o is t), None)
+        return None
 
     def __call__(self, rs, op, out, rec):
         self.hist.append([list(op), out])
         k = op[0]
-        if k == "authz" and out[0] == "ok":
-            gi = len(rs.grants) - 1
-            self.requested[gi] = list(op[3])
+        if k in ("authz", "authzc") and out[0] == "ok":
+            client, scope = (op[2], op[3]) if k == "authz" else (op[3], op[4])
+            for i in out[1] or []:
+                if rs.tokobj[i].token_class == "authorization_code":
+                    self.code_auth[i] = (client, list(scope))
+                    self.requested.setdefault(rs.tok_grant[i], list(scope))
             # the scope echoed in the authorization response is requested ∩ allowed
-            want = sorted(set(s for s in op[3] if s in allowed(rs, op[2])))
+            want = sorted(set(s for s in scope if s in allowed(rs, client)))
             if out[2] is not None and sorted(set(out[2])) != want:
                 self.ctx.violation("authz-response-scope", "authorization response scope %r, authorised %r" % (out[2], want), self.hist)
         if k in ("tparse", "rparse") and len(rs.parsed) > len(self.parsed):
@@ -52,6 +81,16 @@ class ScopeOracle:
                 if extra:
                     self.ctx.violation("escalation", "%s of grant %d (client %s) carries %r beyond the authorised %r"
                                        % (t.token_class, gi, c, sorted(extra), sorted(auth)), self.hist)
+                # ... and within what the authorization request it descends from asked for (a grant may serve several
+                # authorization requests of one browser session)
+                root = self.root_code(rs, t)
+                if root in self.code_auth:
+                    rc, rsc = self.code_auth[root]
+                    bound = set(s for s in rsc if s in allowed(rs, rc))
+                    if set(t.scope) - bound:
+                        self.ctx.violation("escalation-beyond-own-authorization",
+                                           "%s %d descends from code %d, whose authorization request (client %s) asked for %r -> authorised %r, but carries %r"
+                                           % (t.token_class, rs.tokobj.index(t), root, rc, rsc, sorted(bound), list(t.scope)), self.hist)
         if k == "proc" and out[0] == "ok":
             acc = out[1].get("access_token")
             if acc is not None and acc >= 0:
@@ -59,6 +98,14 @@ class ScopeOracle:
                 resp_scope = out[3] or []
                 if list(t.scope) != list(resp_scope):
                     self.ctx.violation("view-response-vs-token", "response scope %r, access token scope %r" % (resp_scope, t.scope), self.hist)
+                root = self.root_code(rs, t)
+                if root in self.code_auth:
+                    rc, rsc = self.code_auth[root]
+                    bound = set(s for s in rsc if s in allowed(rs, rc))
+                    if set(resp_scope) - bound:
+                        self.ctx.violation("escalation-beyond-own-authorization", "token response states scope %r; the authorization request of code %d authorised %r"
+                                           % (resp_scope, root, sorted(bound)), self.hist)
+                    self.ctx.count("token-response-held-against-its-own-authorization")
                 owner = rs.grants[rs.tok_grant[acc]][3]
                 r = rs.run(("introspect", owner, ("tok", acc)))
                 if r[0] == "active" and sorted(r[1]) != sorted(t.scope):
@@ -301,10 +348,11 @@ def client_credentials_flows(ctx, rng, n):
 def jwt_histories(ctx, rng, n):
     """JWT access tokens: oracle only (the model's token-resolution clauses are about the opaque handlers)."""
     for i in range(n):
-        rs = sess.RealSession(oidc=(i % 2 == 0), jwt_access=True)
+        rs = sess.RealSession(oidc=(i % 2 == 0), jwt_access=True, two_redirects=True, rules=["explicit", "per-client"][(i // 2) % 2])
+        rs.model_compared = False      # oracle only: cookie-carrying requests also where the usage rules are per client
         try:
             orc = ScopeOracle(ctx)
-            plan = sess.gen_history(rng, rng.randint(10, 30))
+            plan = sess.gen_history(rng, rng.randint(10, 30), focus="cookie" if i % 3 != 2 else "mixed", p_cookie=0.4)
             pairs, rec = sess.run_history(rs, plan, lambda r, o, x: orc(r, o, x, None))
             ctx.case_seen({"flow": "jwt-access-history", "ops": rec}, any(o[0] == "proc" and x[0] == "ok" for o, x in rec))
         finally:
@@ -315,7 +363,8 @@ def run(ctx):
     def factory():
         return [ScopeOracle(ctx)]
     n = 30 if ctx.quick else 1200
-    common.run_histories(ctx, n, (15, 50), factory, structured=structured())
+    common.run_histories(ctx, n, (15, 50), factory, structured=structured() + common.cookie_structured(), cookie=True,
+                         focus_of=lambda i: "cookie" if i % 3 != 2 else "mixed")
     exchange_flows(ctx, ctx.rng, 16 if ctx.quick else 400)
     client_credentials_flows(ctx, ctx.rng, 8 if ctx.quick else 200)
     jwt_histories(ctx, ctx.rng, 6 if ctx.quick else 200)
